@@ -79,9 +79,14 @@ func (items ipPairs) Len() int {
 	return len(items)
 }
 
-// Less compares specified items
+// Less compares specified items: descending by startIP, then by endIP.
+// The endIP tie-break keeps a real range starting at "::" in front of the
+// (::, ::) placeholders left by mergeItems, so Sort never cuts it off.
 func (items ipPairs) Less(i, j int) bool {
-	return bytes.Compare(items[i].startIP, items[j].startIP) >= 0
+	if c := bytes.Compare(items[i].startIP, items[j].startIP); c != 0 {
+		return c > 0
+	}
+	return bytes.Compare(items[i].endIP, items[j].endIP) >= 0
 }
 
 // Swap swaps specified items
